@@ -138,6 +138,14 @@ def _agrees(core, op, reflected, other, assigns, name):
             if top is op and (trefl == reflected or op in COMMUTATIVE):
                 return True, 'delegates to %s' % tgt
             return False, '%s delegates to %s: operator or operand order differs (%s is not commutative)' % (name, tgt, opn)
+        # delegation to the OTHER operand's dunder with self as its argument: other.__sub__(self) is `other - self` (what __rsub__ must
+        # compute); other.__rsub__(self) is `self - other`
+        if tgt in DUNDERS and isinstance(core.func.value, ast.Name) and core.func.value.id == other and len(core.args) == 1 \
+                and isinstance(core.args[0], ast.Name) and core.args[0].id == 'self' and not core.keywords:
+            top, trefl = DUNDERS[tgt]
+            if top is op and (trefl != reflected or op in COMMUTATIVE):
+                return True, 'delegates to %s.%s(self)' % (other, tgt)
+            return False, '%s delegates to %s.%s(self): operator or operand order differs' % (name, other, tgt)
     if not isinstance(core, ast.BinOp):
         return False, 'result is not an application of `%s` to the operands (got %s)' % (opn, src(core)[:80])
     if not isinstance(core.op, op):
